@@ -3,6 +3,8 @@
 import numpy as np
 from hypothesis import strategies as st
 
+from ..core import sampled_from  # noqa: E402
+
 from .. import build, datagen, meshgen, refmodel, writers
 from .. import sphere as S
 from ..core import Failure
@@ -38,7 +40,7 @@ def shard_env(tier, k, n):
 @st.composite
 def _case(draw, tier):
     big = tier != "quick"
-    fam = draw(st.sampled_from(["hull", "hull", "hull-partial", "voronoi", "latlon", "solid", "tiny-patch"]))
+    fam = draw(sampled_from(["hull", "hull", "hull-partial", "voronoi", "latlon", "solid", "tiny-patch"]))
     if fam == "hull":
         mesh = draw(meshgen.hull_mesh(12, 40 if big else 22, partial=False))
     elif fam == "hull-partial":
@@ -50,10 +52,10 @@ def _case(draw, tier):
     elif fam == "tiny-patch":
         # high-resolution regional patch: cells of 1e-3 .. 0.5 degrees, quads or triangles
         nx, ny = draw(st.integers(3, 5)), draw(st.integers(3, 5))
-        d = draw(st.sampled_from([1e-3, 1e-2, 0.1, 0.5]))
-        lon0 = draw(st.sampled_from([10.0, 179.9, -0.002, 100.0]))
-        lat0 = draw(st.sampled_from([0.0, 40.0, -70.0, 85.0]))
-        tri = draw(st.sampled_from(["quad", "tri", "mixed"]))
+        d = draw(sampled_from([1e-3, 1e-2, 0.1, 0.5]))
+        lon0 = draw(sampled_from([10.0, 179.9, -0.002, 100.0]))
+        lat0 = draw(sampled_from([0.0, 40.0, -70.0, 85.0]))
+        tri = draw(sampled_from(["quad", "tri", "mixed"]))
         nodes = [[((lon0 + i * d + 180.0) % 360.0) - 180.0, lat0 + j * d * 0.8] for j in range(ny) for i in range(nx)]
         faces = []
         for j in range(ny - 1):
@@ -68,7 +70,7 @@ def _case(draw, tier):
     else:
         mesh = draw(meshgen.solid_mesh_st())
     mesh.pop("centers", None)
-    centred = draw(st.sampled_from(["face", "node"]))
+    centred = draw(sampled_from(["face", "node"]))
     n = len(mesh["faces"]) if centred == "face" else len(mesh["nodes"])
     return {
         "mesh": mesh,
@@ -78,11 +80,11 @@ def _case(draw, tier):
         # how the judged grid comes about: from arrays (optionally with Cartesian node coordinates on a sphere of some
         # radius), or as a face subset of that grid, taken on a fresh grid / after node_face_connectivity was derived /
         # after the dual of the whole grid was built (the subset is then the judged grid)
-        "route": draw(st.sampled_from(["topology", "topology", "topology", "radius", "radius", "subset", "subset-after-nfc", "subset-after-dual"])),
-        "radius": draw(st.sampled_from([2.5, 40.0, 6371229.0])),
+        "route": draw(sampled_from(["topology", "topology", "topology", "radius", "radius", "subset", "subset-after-nfc", "subset-after-dual"])),
+        "radius": draw(sampled_from([2.5, 40.0, 6371229.0])),
         "drop": draw(st.lists(st.integers(0, 10_000), min_size=1, max_size=4)),
         # storage type of node_lon / node_lat (single-precision sources are judged on the positions their values denote)
-        "coord_dtype": draw(st.sampled_from(["float64", "float64", "float64", "float32"])),
+        "coord_dtype": draw(sampled_from(["float64", "float64", "float64", "float32"])),
     }
 
 
